@@ -386,23 +386,46 @@ static Options base_options()
    return o;
 }
 
-static void run_case(int k, const std::string & line)
+static Run * setup_run(const Case & c, Scheduler & s)
 {
-   Case c;
-   if (!parse_case(line, c)) {printf("%d bad-case\n", k); return;}
    Run * rp = new Run; Run & r = *rp;
    r.c = &c; r.pool = new ThreadPool((uint32) c.n); r.shutBegun = false; r.running = 0;
    for (int i=0; i<MAX_CLIENTS; i++) r.cl[i] = new SchedClient(i);
    for (int i=0; i<MAX_UT; i++) {r.done[i] = new WaitCondition; r.ctx[i].kind = 0; r.ctx[i].c = -1; r.ctx[i].m = 0;}
    g_chans.clear();
    g_run = rp;
+   s.NameObject(&r.pool->_poolLock, "poolLock");
+   for (int t=0; t<c.nut; t++) s.Spawn([t]{user_body(t);});
+   return rp;
+}
 
+// tear-down outside the scheduler.  After a run that did not complete, threads are parked inside these objects for ever: leak them (README section 4)
+static void teardown_run(Run * rp, const Result & res)
+{
+   Run & r = *rp;
+   g_run = NULL;
+   if (res.status != Result::COMPLETED) return;
+   {
+      // the pool is dead (Shutdown() ran); clients registered afterwards are taken off by hand
+      DECLARE_MUTEXGUARD(r.pool->_poolLock);
+      r.pool->_pendingMessages.Clear(); r.pool->_deferredMessages.Clear();
+   }
+   for (int ci=0; ci<MAX_CLIENTS; ci++) if (r.cl[ci]->GetThreadPool() != NULL) r.cl[ci]->SetThreadPool(NULL);
+   delete r.pool;
+   for (int ci=0; ci<MAX_CLIENTS; ci++) delete r.cl[ci];
+   for (int ci=0; ci<MAX_UT; ci++) delete r.done[ci];
+   delete rp;
+}
+
+static void run_case(int k, const std::string & line)
+{
+   Case c;
+   if (!parse_case(line, c)) {printf("%d bad-case\n", k); return;}
    Options o = base_options();
    o.schedule = c.sched;
    if (c.haveSeed) {o.policy = Options::RANDOM; o.seed = c.seed;} else o.policy = Options::NONPREEMPTIVE;
    Scheduler * s = new Scheduler(o);
-   s->NameObject(&r.pool->_poolLock, "poolLock");
-   for (int t=0; t<c.nut; t++) s->Spawn([t]{user_body(t);});
+   Run * rp = setup_run(c, *s); Run & r = *rp;
    Result res = s->Run();
 
    int i = 0;
@@ -425,35 +448,43 @@ static void run_case(int k, const std::string & line)
    std::set<std::string> seen;
    for (size_t j=0; j<r.oracle.size(); j++) if (seen.insert(r.oracle[j]).second) printf("%d ORACLE FAIL %s\n", k, r.oracle[j].c_str());
    fflush(stdout);
-
-   g_run = NULL;
-   if (res.status == Result::COMPLETED)
-   {
-      // tear-down outside the scheduler: the pool is dead (Shutdown() ran); clients registered afterwards are taken off by hand
-      {
-         DECLARE_MUTEXGUARD(r.pool->_poolLock);
-         r.pool->_pendingMessages.Clear(); r.pool->_deferredMessages.Clear();
-      }
-      for (int ci=0; ci<MAX_CLIENTS; ci++) if (r.cl[ci]->GetThreadPool() != NULL) r.cl[ci]->SetThreadPool(NULL);
-      delete r.pool;
-      for (int ci=0; ci<MAX_CLIENTS; ci++) delete r.cl[ci];
-      for (int ci=0; ci<MAX_UT; ci++) delete r.done[ci];
-      delete s;
-      delete rp;
-   }
-   // otherwise threads are parked inside these objects for ever: leak them (README section 4)
+   teardown_run(rp, res);
+   if (res.status == Result::COMPLETED) delete s;
 }
 
-int main(int, char **)
+// --explore <max_preemptions> <max_runs>: every schedule of the case up to the preemption bound, printed as a complete case line
+// (support for the tie, never the theorem; checks/c19.py then runs these lines like any other case)
+static void explore_case(const std::string & line, int bound, size_t maxRuns)
+{
+   Case c;
+   if (!parse_case(line, c)) return;
+   ExploreOptions eo; eo.max_preemptions = bound; eo.max_runs = maxRuns; eo.base = base_options();
+   Run * cur = NULL;
+   std::string head = "sched,n=" + std::to_string(c.n) + ",bar=" + (c.bar ? "1" : "0") + ",seed=-,sch=";
+   (void) Explore(eo,
+      [&](Scheduler & s) {cur = setup_run(c, s);},
+      [&](const Result & res) {
+         std::string sch = FormatSchedule(res.Schedule());
+         for (size_t i=0; i<sch.size(); i++) if (sch[i] == ',') sch[i] = '.';
+         printf("%s%s|%s\n", head.c_str(), sch.c_str(), c.body.c_str());
+         teardown_run(cur, res); cur = NULL;
+         return true;
+      });
+   fflush(stdout);
+}
+
+int main(int argc, char ** argv)
 {
    CompleteSetupSystem css;
+   const bool explore = (argc >= 4)&&(strcmp(argv[1], "--explore") == 0);
    char * line = NULL; size_t cap = 0; ssize_t len;
    int k = 0;
    while((len = getline(&line, &cap, stdin)) >= 0)
    {
       std::string s(line, (size_t) len);
       while((!s.empty())&&((s[s.size()-1] == '\n')||(s[s.size()-1] == '\r'))) s.erase(s.size()-1);
-      run_case(k, s);
+      if (explore) explore_case(s, atoi(argv[2]), (size_t) atol(argv[3]));
+      else run_case(k, s);
       fflush(stdout);
       k++;
    }
